@@ -1694,6 +1694,23 @@ func ruleSortKeysDefined(c *Ctx) {
 				fs = append(fs, f)
 			}
 			sort.Slice(fs, func(i, j int) bool { return fs[i].Name() < fs[j].Name() })
+			// the slice is handed in (a method `(vs sortVals) order(…)` of a sorting phase): the keys are assigned by the
+			// phase before it, in another function — not decided here (stated), never reported
+			slRoot := sl
+			for i := 0; i < 3; i++ {
+				if ct, ok := slRoot.(*ssa.ChangeType); ok {
+					slRoot = ct.X
+				}
+				slRoot = resolveLocal(slRoot) // a receiver captured by the comparison closure lives in a cell
+			}
+			if _, isParam := slRoot.(*ssa.Parameter); isParam {
+				for _, f := range fs {
+					k++
+					n++
+					c.S.Trivial("R-sort-keys-defined", fmt.Sprintf("%s:sort#%d:%s", fnName(fn), k, f.Name()), c.Pos(call.Pos()), "the sorted slice is a parameter: its keys are assigned by the caller's earlier phase (not followed across functions)")
+				}
+				continue
+			}
 			for _, f := range fs {
 				k++
 				n++
